@@ -666,15 +666,17 @@ func runR155(c *core.Ctx) {
 	// the root variable: assigned from rp.RootResource()
 	var rootObj types.Object
 	type def struct {
-		rhs ast.Expr
-		end token.Pos
+		rhs  ast.Expr
+		end  token.Pos
+		stmt ast.Stmt
 	}
+	r155par := core.Parents(fd)
 	defs := map[types.Object][]def{}
 	ast.Inspect(fd.Body, func(x ast.Node) bool {
 		if as, ok := x.(*ast.AssignStmt); ok && len(as.Rhs) == 1 && len(as.Lhs) > 1 {
 			// v, ok := strings.CutSuffix(x, "/"): the first result derives from the call
 			if o := core.ObjOf(inf, as.Lhs[0]); o != nil {
-				defs[o] = append(defs[o], def{as.Rhs[0], as.End()})
+				defs[o] = append(defs[o], def{as.Rhs[0], as.End(), as})
 			}
 		}
 		if as, ok := x.(*ast.AssignStmt); ok && len(as.Lhs) == len(as.Rhs) {
@@ -683,7 +685,7 @@ func runR155(c *core.Ctx) {
 				if o == nil {
 					continue
 				}
-				defs[o] = append(defs[o], def{as.Rhs[i], as.End()})
+				defs[o] = append(defs[o], def{as.Rhs[i], as.End(), as})
 				if call, ok := core.Unparen(as.Rhs[i]).(*ast.CallExpr); ok {
 					if f := core.Callee(inf, call); f != nil && core.NameOf(f) == "RootResource" {
 						rootObj = o
@@ -714,8 +716,30 @@ func runR155(c *core.Ctx) {
 			case *ast.Ident:
 				if o := inf.Uses[y]; o != nil && depth < 4 {
 					for _, d := range defs[o] {
-						if d.end <= at && normalised(d.rhs, depth+1, d.end) {
+						if d.end > at {
+							continue
+						}
+						if normalised(d.rhs, depth+1, d.end) {
 							found = true
+						}
+						// the trailing slash dropped by hand: x = x[:len(x)-1] under strings.HasSuffix(x, "/")
+						if sl, ok := core.Unparen(d.rhs).(*ast.SliceExpr); ok && sl.Low == nil && sl.High != nil && core.ObjOf(inf, sl.X) == o && d.stmt != nil {
+							if be, ok := core.Unparen(sl.High).(*ast.BinaryExpr); ok && be.Op == token.SUB {
+								lc, isCall := core.Unparen(be.X).(*ast.CallExpr)
+								cv := core.ConstOf(inf, be.Y)
+								if isCall && len(lc.Args) == 1 && core.ObjOf(inf, lc.Args[0]) == o && cv != nil && cv.ExactString() == "1" {
+									if core.GuardedByFact(inf, r155par, d.stmt, func(f core.Fact) bool {
+										call, ok := core.Unparen(f.Expr).(*ast.CallExpr)
+										if !ok || !f.Val || len(call.Args) != 2 || !core.IsFunc(core.Callee(inf, call), "strings", "HasSuffix") {
+											return false
+										}
+										v := core.ConstOf(inf, call.Args[1])
+										return core.ObjOf(inf, call.Args[0]) == o && v != nil && v.ExactString() == `"/"`
+									}, nil) {
+										found = true
+									}
+								}
+							}
 						}
 					}
 				}
